@@ -57,6 +57,10 @@ def run_session(tag, cfg, seed, ops_filter=None, redeliver=True, setup_only=Fals
     if cfg.get("ns_ip"):
         extra += ["-n", cfg["ns_ip"]]
     dom = scen.DOMAIN
+    if cfg.get("wild"):
+        # under a wildcard the clients use some label of their own choosing (1..12 characters)
+        lab = "".join(rng.choice("abcdefghijklmnopqrstuvwxyz0123456789") for _ in range(rng.choice([1, 2, 4, 4, 7, 12])))
+        dom = lab + "." + dom.split(".", 1)[1]
     s.qdomain = dom
     if cfg.get("wild"):
         s.srv = sim.server(domain="*." + dom.split(".", 1)[1], extra=extra)
@@ -98,7 +102,7 @@ def run_session(tag, cfg, seed, ops_filter=None, redeliver=True, setup_only=Fals
     if setup_only:
         s.ok = True
         return s
-    ops = ["ping"] * 6 + ["up"] * 3 + ["down"] * 5 + ["burst", "idle", "id0", "aux", "hs", "badip", "downsoon", "upsmall", "rawop", "refrag", "refrag", "dupsoon", "dupsoon"]
+    ops = ["ping"] * 6 + ["up"] * 3 + ["down"] * 5 + ["burst", "idle", "id0", "aux", "hs", "badip", "downsoon", "upsmall", "rawop", "refrag", "refrag", "dupsoon", "dupsoon", "c2c", "c2c"]
     if redeliver:
         ops += ["dup"] * 3
     if ops_filter:
@@ -137,8 +141,32 @@ def do_op(s, mc, op, rng):
         f = mk_frame(s, mc, "up", rng, size=rng.choice([32, 60]) if op == "upsmall" else None)
         s.sent_up.append(f)
         mc.send_frame(f, wait_us=150000)
+    elif op == "c2c":
+        # one client sends to another client's tunnel address while that one has a query parked and the sender has
+        # downstream data pending of its own
+        others = [o for o in s.mcs if o is not mc]
+        if others:
+            o = rng.choice(others)
+            if o.lazy:
+                o.query(o.ping_labels())
+                k.run(k.now + 3000)
+            fa = mk_frame(s, mc, "down", rng, size=rng.choice([600, 1000]))
+            s.offered_down.append(fa)
+            k.offer_tun("srv", fa, s.ident)
+            k.run(k.now + 2000)
+            ident = (s.ident << 8) | 0xC2
+            s.ident += 1
+            f = proto.make_frame(mc.tun_ip, o.tun_ip, ident, rng.choice([40, 60, 100]), "random", rng)
+            s.c2c = getattr(s, "c2c", [])
+            s.c2c.append(f)
+            mc.send_frame(f, wait_us=100000)
+            o.pump(400000, 50000)
+            mc.pump(400000, 50000)
     elif op == "down":
-        f = mk_frame(s, mc, "down", rng)
+        big = mc.fragsize > 4094 and mc.qtype in (proto.T_NULL, proto.T_PRIVATE) and rng.random() < 0.5
+        f = mk_frame(s, mc, "down", rng, size=rng.choice([4200, 4500, 6000, 9000]) if big else None)
+        if big:
+            f = proto.make_frame(s.server_tun_ip, mc.tun_ip, (s.ident << 8) | 0xB1, len(f), "random", rng)
         s.offered_down.append(f)
         k.offer_tun("srv", f, s.ident)
         mc.pump(rng.choice([100000, 600000, 1500000]), rng.choice([20000, 100000]))
